@@ -96,4 +96,17 @@ theorem Eff.forIn_addAll (e : EffEnv) (f : Str → Eff (Option Unit))
     rcases hv : vcsCall e.plan (.add p) s with ⟨s1, o⟩
     cases o <;> simp [Eff.liftC, ih, Eff.pure]
 
+/-- a loop whose body does not distinguish two environments does not distinguish them either -/
+theorem Eff.forIn_env_congr {α ρ : Type} (f : α → Eff (Option ρ)) (e1 e2 : EffEnv)
+    (h : ∀ x s, f x e1 s = f x e2 s) (xs : List α) (s : PState) :
+    Eff.forIn xs f e1 s = Eff.forIn xs f e2 s := by
+  induction xs generalizing s with
+  | nil => rfl
+  | cons x xs ih =>
+    simp only [Eff.forIn, Eff.bind, h]
+    rcases f x e2 s with ⟨s', r⟩
+    cases r with
+    | error x => rfl
+    | ok v => cases v <;> simp [ih, Eff.pure]
+
 end BV
